@@ -6,6 +6,7 @@ import (
 	"fmt"
 	"net"
 	"net/netip"
+	"strings"
 	"time"
 
 	"golang.org/x/sys/unix"
@@ -231,13 +232,39 @@ func genNTSDest(c *lib.Ctx, tag string) {
 				}
 				order = append(order, i)
 			}
-			for k, ni := range order {
-				nm := names[ni]
-				port := ports[(k+round)%len(ports)]
-				if net.ParseIP(nm.server) != nil && k+1 < len(order) && net.ParseIP(names[order[k+1]].server) == nil {
-					port = ports[(k+round+1)%len(ports)] // differs from the port of the following case
+			// re-keying on ONE client object: consecutive key exchanges that name the same server with another
+			// port, another server with the same port, a server / no literal / the server again — the k-th
+			// request must go to what the k-th exchange named, whatever earlier exchanges named
+			// (indices into names: 0 127.0.0.1, 1 127.0.0.2, 2 ::ffff:127.0.0.1, 7 localhost, 12 empty)
+			type rk struct{ ni, pi int }
+			rekey := []rk{{0, 0}, {0, 1}, {0, 2}, {0, 1}, {1, 1}, {1, 0}, {2, 0}, {0, 0}, {7, 1}, {0, 1}, {0, 2}, {12, 0}, {0, 0}, {0, 1}, {1, 1}, {1, 2}}
+			nRekey := len(rekey)
+			if round > 0 {
+				// later rounds: a random walk over the same servers and ports
+				for i := range rekey {
+					rekey[i] = rk{[]int{0, 0, 0, 1, 1, 2, 7, 12}[r.Intn(8)], r.Intn(len(ports))}
 				}
-				if r.Chance(10) {
+			}
+			full := make([]int, 0, nRekey+len(order))
+			for _, x := range rekey {
+				full = append(full, x.ni)
+			}
+			full = append(full, order...)
+			var histToks []string
+			for k, ni := range full {
+				nm := names[ni]
+				hist := k < nRekey
+				var port uint16
+				if hist {
+					port = ports[rekey[k].pi%len(ports)]
+				} else {
+					ko := k - nRekey
+					port = ports[(ko+round)%len(ports)]
+					if net.ParseIP(nm.server) != nil && ko+1 < len(order) && net.ParseIP(names[order[ko+1]].server) == nil {
+						port = ports[(ko+round+1)%len(ports)] // differs from the port of the following case
+					}
+				}
+				if !hist && r.Chance(10) {
 					ipRemote = net.UDPAddrFromAddrPort(configured)
 					scRemote.Host = net.UDPAddrFromAddrPort(configured)
 				}
@@ -361,6 +388,13 @@ func genNTSDest(c *lib.Ctx, tag string) {
 					resTok = "ok"
 				}
 				op := fmt.Sprintf("cli.ntsdest tr=%s parsed=%s port=%d reach=%s", tr, parsedTok, port, lib.Bool(reach))
+				if hist {
+					// the whole history of key exchange data this client object has seen since the start of the
+					// sub-history; the answer is the destination of the LAST call
+					histToks = append(histToks, fmt.Sprintf("%s:%d", parsedTok, port))
+					op = fmt.Sprintf("cli.ntsdesth tr=%s hist=%s reach=%s", tr, strings.Join(histToks, ";"), lib.Bool(reach))
+					c.Count(fmt.Sprintf("%s:%s:rekey-history:call-%02d", tag, tr, len(histToks)))
+				}
 				c.Emit(op, fmt.Sprintf("ok sent=%s res=%s", sentTok, resTok))
 				replay := []string{fmt.Sprintf("# %s tr=%s ntske.Data{Server: %q, Port: %d} preloaded; configured server %s; address object before the call as left by the previous case",
 					tag, tr, nm.server, port, configured), op}
